@@ -12,6 +12,7 @@ import re
 
 from ..core import astpaths, pymachine as PM
 from ..core.pyfacts import PyRepo
+from ..core.report import AnalysisError
 from ..core.wiring import Wiring
 from ..spec import metamath_theory as MT
 from ..spec.axioms import AXIOMS
@@ -351,6 +352,10 @@ def run(ctx):
     c15.numbering(ctx, py, ip, conv)
     c15.label_tokens(ctx, py, ip)
     floats_from_statement(ctx, py)
+    application_fold_order(ctx, py)
+    # the step numbers of a compressed proof are decoded by the converter (shared with C15): a wrong digit weight or traversal order
+    # replays a different label
+    c15.digit_order(ctx, py, ip, *c15.digit_tables(ctx, py, ip))
     ctx.floor('stack-discipline', 14)
     ctx.floor('operand-position', 8)
     ctx.explanation = (
@@ -368,6 +373,116 @@ def run(ctx):
                        '(database order, C15) and the essential hypotheses are the antecedents',
                        'prelude statements as defined in generation/mm-benchmarks/*.mm (all databases agree up to variable names)',
                        'python ast; tracker effects as decided under C04']
+
+
+def application_fold_order(ctx, py):
+    """`( \\f a b c )` for a constructor without a declared notation is the curried application ((f a) b) c: the converter folds
+    `resolve_as_app` over the converted arguments, and the i-th fold step must take the i-th argument.  Decided on the shape of the
+    fold in `_to_pattern`: the sequence is built from `subterms` in order, and every value handed to the fold is taken from its
+    FRONT (head unpacking, pop(0), popleft(), plain iteration); a pop() from the end, reversed(..) or sorted(..) permutes the
+    arguments of every application of arity three or more."""
+    conv = py.cls('MetamathConverter')
+    fn = conv.methods.get('_to_pattern')
+    ctx.require(fn is not None, 'anchor vanished: MetamathConverter._to_pattern')
+    where = py.where(conv.module, fn)
+    folds = [c for c in ast.walk(fn) if isinstance(c, ast.Call) and isinstance(c.func, ast.Name) and c.func.id == 'resolve_as_app' and len(c.args) == 2]
+    # the definition of resolve_as_app itself is not a fold step
+    ctx.require(bool(folds), '_to_pattern: the fold over the arguments of an undeclared constructor (resolve_as_app) was not found')
+    parents = {}
+    for p_ in ast.walk(fn):
+        for ch in ast.iter_child_nodes(p_):
+            parents[ch] = p_
+
+    def seq_built_in_order(e, depth=0):
+        """True / False / None: the sequence expression enumerates the converted `subterms` first to last"""
+        if depth > 4:
+            return None
+        if isinstance(e, ast.Call) and isinstance(e.func, ast.Name) and e.func.id in ('list', 'tuple', 'deque', 'iter') and len(e.args) == 1:
+            return seq_built_in_order(e.args[0], depth + 1)
+        if isinstance(e, ast.Call) and isinstance(e.func, ast.Name) and e.func.id in ('reversed', 'sorted'):
+            return False
+        if isinstance(e, (ast.ListComp, ast.GeneratorExp)) and len(e.generators) == 1 and not e.generators[0].ifs:
+            it = e.generators[0].iter
+            if isinstance(it, ast.Name):
+                return True if it.id == 'subterms' else seq_built_in_order_name(it.id, depth + 1)
+            return seq_built_in_order(it, depth + 1)
+        if isinstance(e, ast.Call) and isinstance(e.func, ast.Name) and e.func.id == 'map' and len(e.args) == 2:
+            return seq_built_in_order(e.args[1], depth + 1)
+        if isinstance(e, ast.Name):
+            return True if e.id == 'subterms' else seq_built_in_order_name(e.id, depth + 1)
+        if isinstance(e, ast.Subscript) and isinstance(e.slice, ast.Slice):
+            st = e.slice.step
+            if st is not None and not (isinstance(st, ast.Constant) and st.value == 1):
+                return False
+            return seq_built_in_order(e.value, depth + 1)
+        return None
+
+    def seq_built_in_order_name(name, depth):
+        defs = [n for n in ast.walk(fn) if isinstance(n, (ast.Assign, ast.AnnAssign)) and n.value is not None
+                and isinstance(n.targets[0] if isinstance(n, ast.Assign) else n.target, ast.Name)
+                and (n.targets[0] if isinstance(n, ast.Assign) else n.target).id == name]
+        plain = [d for d in defs if not (isinstance(d, ast.Assign) and isinstance(d.targets[0], ast.Tuple))]
+        if not plain:
+            return None
+        res = [seq_built_in_order(d.value, depth) for d in plain]
+        return False if any(r is False for r in res) else (True if all(r is True for r in res) else None)
+
+    def taken_from_front(e, call):
+        """(True / False / None, sequence name): the fold operand `e` is the next element from the front of a sequence"""
+        if isinstance(e, ast.Call) and isinstance(e.func, ast.Attribute) and isinstance(e.func.value, ast.Name):
+            w = e.func.value.id
+            if e.func.attr == 'popleft' and not e.args:
+                return True, w
+            if e.func.attr == 'pop':
+                if len(e.args) == 1 and isinstance(e.args[0], ast.Constant) and e.args[0].value == 0:
+                    return True, w
+                return False, w
+        if isinstance(e, ast.Call) and isinstance(e.func, ast.Name) and e.func.id == 'next' and len(e.args) == 1 and isinstance(e.args[0], ast.Name):
+            return True, e.args[0].id
+        if isinstance(e, ast.Name):
+            # head unpacking `x, *w = w`; loop variable of `for x in w`; a local bound to one of the forms above
+            cur = call
+            while cur in parents:
+                cur = parents[cur]
+                if isinstance(cur, ast.For) and any(isinstance(n, ast.Name) and n.id == e.id for n in ast.walk(cur.target)):
+                    it = cur.iter
+                    if isinstance(it, ast.Call) and isinstance(it.func, ast.Name) and it.func.id in ('reversed', 'sorted'):
+                        return False, ast.unparse(it)
+                    if isinstance(it, ast.Call) and isinstance(it.func, ast.Name) and it.func.id == 'enumerate' and it.args:
+                        it = it.args[0]
+                    if isinstance(it, ast.Name):
+                        return True, it.id
+                    return seq_built_in_order(it), ast.unparse(it)
+            for n in ast.walk(fn):
+                if isinstance(n, ast.Assign) and len(n.targets) == 1:
+                    t = n.targets[0]
+                    if isinstance(t, ast.Tuple) and len(t.elts) == 2 and isinstance(n.value, ast.Name):
+                        a, b = t.elts
+                        if isinstance(a, ast.Name) and a.id == e.id and isinstance(b, ast.Starred) and isinstance(b.value, ast.Name):
+                            return True, n.value.id                       # x, *rest = w
+                        if isinstance(b, ast.Name) and b.id == e.id and isinstance(a, ast.Starred):
+                            return False, n.value.id                      # *rest, x = w
+                    if isinstance(t, ast.Name) and t.id == e.id:
+                        return taken_from_front(n.value, call)
+                    if isinstance(t, ast.Name) and t.id == e.id and isinstance(n.value, ast.Subscript):
+                        return None, ''
+        return None, ''
+
+    n = 0
+    for call in folds:
+        # skip the definition's own body (resolve_as_app is a nested def, its inner calls are not folds over the arguments)
+        ok_front, seq = taken_from_front(call.args[1], call)
+        if ok_front is None:
+            raise AnalysisError(f'_to_pattern: cannot tell from which end of the argument sequence the fold operand `{ast.unparse(call.args[1])}` is taken')
+        built = seq_built_in_order_name(seq, 0) if seq.isidentifier() else seq_built_in_order(ast.parse(seq, mode='eval').body)
+        if ok_front and built is None:
+            raise AnalysisError(f'_to_pattern: cannot tell whether `{seq}` lists the converted arguments in order')
+        n += 1
+        ctx.ob('term-image', 'curried-in-argument-order' + ('' if n == 1 else f'#{n}'), bool(ok_front) and built is True,
+               f'the application of an undeclared constructor is curried over its arguments with `{ast.unparse(call.args[1])}` '
+               + ('taken from the END of the argument sequence' if not ok_front else f'out of `{seq}`, which does not list the arguments first to last')
+               + ': ( f a b c ) must become ((f a) b) c - with three or more arguments the image of every such term is permuted',
+               py.where(conv.module, call))
 
 
 def floats_from_statement(ctx, py):
